@@ -259,6 +259,26 @@ fn main() {
             }
         }
     }
+    // Configuration-space accesses against the size of the region the transport was given: an
+    // access that does not lie wholly inside it must not touch anything beyond the register block.
+    {
+        let mut ev = 0u64;
+        let mut cases = 0u64;
+        for tk in [vlab::drivers::TKind::MmioLegacy, vlab::drivers::TKind::MmioModern] {
+            for wnd in [0usize, 1, 2, 3, 4, 6, 7, 8, 12, 16] {
+                let r = vlab::c13::bounds_case(tk, Some(wnd));
+                ev += r.evals;
+                cases += 1;
+                let mut seen = std::collections::HashSet::new();
+                for (k, d) in r.viols {
+                    if (k.starts_with("config-access-out-of-window") || k.starts_with("config-access-stray") || k.starts_with("config-access-extra-bytes") || k.starts_with("config-access-after-refusal")) && seen.insert(k.clone()) {
+                        c.add_violation(Violation::new("C10", format!("config-window:{}", k), format!("{} transport, region of 0x100 + {} bytes: {}", tk.name(), wnd, d)), "mmio-config-window", J::obj().set("kind", J::s("case")).set("case", J::s(d)), vec![]);
+                    }
+                }
+            }
+        }
+        c.add_sweep("mmio-config-window: every access type (1, 2, 4 bytes and 3-, 6-, 8-, 12-byte arrays) at every aligned offset up to 8 bytes past regions with 0..16 bytes of configuration space, versions 1 and 2", ev, cases, true, J::obj());
+    }
     // Devices whose Status register is not 0 when they are probed.
     for status in [1u32, 3, 0xb, 0xf, 0x4f, 0x80] {
         for (m, ver, id, size) in [(0x7472_6976u32, 1u32, 2u32, 0x200usize), (0x7472_6976, 2, 2, 0x200), (0x7472_6976, 2, 19, 0x100), (0x7472_6976, 1, 1, 0x100), (0x7472_6976, 3, 2, 0x200), (0x7472_6976, 2, 0, 0x200), (0, 2, 2, 0x200), (0x7472_6976, 2, 2, 0xff)] {
